@@ -189,7 +189,7 @@ def op_generate(sk, di, P):
         st = random.getstate()
         random.seed(1234 + di)
         try:
-            v = U.generate_one(SCHEMAS[sk])
+            v = U.generate_one(P.get(sk) or SCHEMAS[sk])
         finally:
             random.setstate(st)
         v = {k: x for k, x in v.items() if not isinstance(x, str) or len(x) != 32} if isinstance(v, dict) else v
@@ -283,7 +283,7 @@ FRAME_SCHEMAS = ["rec_flat", "rec_defaults2", "union_named_mix", "pair_array_rec
                  "ns_inherit", "rec_list", "enum", "fixed", "prim_long", "union_two_recs"]
 FRAME_QUICK = ["rec_flat", "rec_defaults2", "union_named_mix", "pair_array_record", "ref_after_def", "enum"]
 FRAME_KINDS = [7, 0, shape.DELETE, 13]  # mutants used to make calls fail: wrong type, None, missing field, non-string map key
-FRAME_OPS = ["write", "roundtrip", "validate", "validate_raise", "container", "json", "parse_pcf"]
+FRAME_OPS = ["write", "roundtrip", "validate", "validate_raise", "container", "json", "parse_pcf", "generate"]
 
 
 def _copy_struct(d):
@@ -351,6 +351,22 @@ def ob_frame_sym(c, opi, v, pos, kind, parsed):
         elif opn == "parse_pcf":
             S.to_parsing_canonical_form(sch)
             S.parse_schema(sch, {})
+        elif opn == "generate":
+            from . import l20
+            import fastavro.utils as U
+            import builtins
+            saved = (U.random, U.__dict__.get("range"))
+            U.random = l20.Draws([pos, kind, 3, 1, 4, 1, 5, 9, 2, 6])
+            U.range = lambda k: builtins.range(min(k, 2))
+            try:
+                U.generate_one(sch)
+                list(U.generate_many(sch, 2))
+            finally:
+                U.random = saved[0]
+                if saved[1] is None:
+                    del U.range
+                else:
+                    U.range = saved[1]
     except Exception as e:
         outcome = type(e).__name__
     after = _snap_native()
